@@ -70,6 +70,9 @@ def commands(ctx, rng, world, count, ncmd, truth=None, np=None, digital_rf=None,
                        rel_end=rng.random() < 0.25, spelling=rng.choice([0, 0, 0, 1, 2, 3]),
                        via_link=rng.random() < (0.5 if sym else 0.15))
         evs.append(ev)
+        if cmd == "ln" and not ev["raised"] and ev["new"] and rng.random() < 0.5:
+            evs.append(drv.relink(world, ev["d"], sym))
+            count["relinks"] = count.get("relinks", 0) + 1
         count[cmd + ("-s" if sym else "")] = count.get(cmd + ("-s" if sym else ""), 0) + 1
         count["files_transferred"] += len(ev["new"])
         count["raised"] += ev["raised"]
